@@ -25,7 +25,8 @@ BOUNDS = {'quick': 'API histories to depth 3 over 28 operations (pair file) / 2 
 
 def pair_file():
     return Ini([['Tabulation', [['target', 'LAMMPS'], ['nr', '4'], ['cutoff', '2.0']]],
-                ['Pair', [['O-O', 'as.buck 1000.0 0.3 32.0'], ['U-O', 'cbuck 800.0 0.35'], ['U-U', 'sum(as.bornmayer 850.0 0.35, tf)']]],
+                ['Pair', [['O-O', 'as.buck 1000.0 0.3 32.0'], ['U-O', 'cbuck ${Variables:A_uo} 0.35'], ['U-U', 'sum(as.bornmayer 850.0 0.35, tf)']]],
+                ['Variables', [['A_uo', '800.0']]],
                 ['Potential-Form', [['cbuck(r,A,rho)', 'A*exp(-r/rho) + 1.0/r']]],
                 ['Table-Form:tf', [['x', '0 1 2 3'], ['y', '3 2 1 0.5']]],
                 ['Species', [['O.charge', '-2.0']]]])
@@ -43,7 +44,9 @@ FILES = {'pair': pair_file, 'eam': eam_file}
 
 # (section, key as typed, values)
 KEYS = {
-    'pair': [('Pair', 'O-O', ['as.lj 0.2 2.5', 'as.morse 1.8 2.0 0.6']), ('Pair', 'U - O', ['as.lj 0.3 2.2']), ('Pair', 'Th-O', ['as.lj 0.4 2.1']),
+    # values: one containing ':' and, later, '=' (a placeholder and a '>=' range); one equal to the current EXPANDED value of its item (pins it)
+    'pair': [('Pair', 'O-O', ['as.lj 0.2 2.5', 'as.morse 1.8 2.0 0.6', '>0 as.buck 1000.0 0.3 ${Species:O.charge} >=1.5 as.zero']),
+             ('Pair', 'U - O', ['as.lj 0.3 2.2', 'cbuck 800.0 0.35']), ('Variables', 'A_uo', ['900.0']), ('Pair', 'Th-O', ['as.lj 0.4 2.1']),
              ('Tabulation', 'nr', ['5']), ('Tabulation', 'dr', ['0.25']), ('Potential-Form', 'cbuck(r, A, rho)', ['A*exp(-r/rho)']),
              ('Table-Form:tf', 'y', ['9 8 7 6']), ('Species', 'O.charge', ['-1.5']), ('NewSection', 'k', ['v']), ('Pair', 'U-U', ['as.zero']),
              ('Variables', 'newvar', ['1.5'])],
@@ -257,14 +260,16 @@ def run_cli(case):
         if a != b:
             viol.append(dict(sig='cli-differs-from-edited-file', msg='potable %s on the %s file gives %s; the hand-edited file gives %s' % (' '.join(args), fname, str(a)[:200], str(b)[:200]),
                              detail={'edited': ref.render()}))
+        elif b == ('config-error',):
+            pass          # the edited file is itself refused (e.g. a placeholder left dangling by a removal): both agree, nothing to list
         elif case.get('light'):
             li = R.potable(text, args=args + ['--list-items'], want_output=False)
-            if li.status != 0 or sorted(parse_items(li.stdout)) != sorted(ref.items()):
-                viol.append(dict(sig='list-items', msg='potable %s --list-items prints %r; the edited file has the items %r' % (' '.join(args), sorted(parse_items(li.stdout)), sorted(ref.items())), detail={}))
+            if li.status != 0 or sorted(parse_items(li.stdout)) != sorted(expanded_items(ref)):
+                viol.append(dict(sig='list-items', msg='potable %s --list-items prints %r; the edited file has the items %r' % (' '.join(args), sorted(parse_items(li.stdout)), sorted(expanded_items(ref))), detail={}))
         else:
             # --list-items / --list-item-labels / --item-value on the edited configuration
             li = R.potable(text, args=args + ['--list-items'], want_output=False)
-            items = sorted(ref.items())
+            items = sorted(expanded_items(ref))
             got = sorted(parse_items(li.stdout))
             if li.status != 0 or got != items:
                 viol.append(dict(sig='list-items', msg='potable %s --list-items prints %r; the edited file has the items %r' % (' '.join(args), got, items), detail={}))
@@ -280,6 +285,22 @@ def run_cli(case):
                         break
     return dict(outcome='ok:cli:%s' % ('rejected' if ref is None else 'applied') if not viol else 'violation', nontrivial=len(ops) >= 1,
                 evals=max(1, len(ops)), violations=viol, states=[state[:2000]], transitions=max(1, len(ops)), traces=1)
+
+
+def expanded_items(ref):
+    """items of the edited file with ${SECTION:KEY} placeholders expanded (the documented extended interpolation; the listing prints values as used)"""
+    import re
+    items = ref.items()
+    d = {}
+    for k, v in items:
+        d[norm(k)] = v
+
+    def ex(v, depth=0):
+        def sub(m):
+            key = norm('%s:%s' % (m.group(1), m.group(2)))
+            return ex(d[key], depth + 1) if key in d and depth < 5 else m.group(0)
+        return re.sub(r'\$\{([^}:]+):([^}]+)\}', sub, v)
+    return [(k, ex(v)) for k, v in items]
 
 
 def parse_items(stdout):
